@@ -118,6 +118,13 @@ End hash.
 Print Assumptions C31_rule.
 Print Assumptions C31_binding_langviews.
 
+(* the verdict (and the computed hash) depends on the protocol parameters only
+   through the current cost models of the languages used *)
+Theorem C31_rule_current_cost_models : forall H256 cms cms' t,
+  (forall v, In v (used_versions t) -> cms v = cms' v) ->
+  script_data_hash_rule H256 cms t = script_data_hash_rule H256 cms' t.
+Proof. exact rule_current_cost_models. Qed.
+
 (* every era from Alonzo on lists the rule (generated from the current tree) *)
 Local Open Scope string_scope.
 Definition missing_rule : list string :=
